@@ -66,6 +66,11 @@ func init() {
 
 // regionAllPathsHit: every path from the start of block `from` to a block satisfying stop (or, unless exitOK, to a function exit) passes a node satisfying good.
 func regionAllPathsHit(c *CFG, from *cfg.Block, good func(ast.Node) bool, stop func(*cfg.Block) bool, exitOK bool) bool {
+	return regionAllPathsHitEdge(c, from, good, nil, stop, exitOK)
+}
+
+// regionAllPathsHitEdge: as regionAllPathsHit; a path is also satisfied by taking a conditional edge on which goodEdge(cond, value) holds.
+func regionAllPathsHitEdge(c *CFG, from *cfg.Block, good func(ast.Node) bool, goodEdge func(cond ast.Expr, val bool) bool, stop func(*cfg.Block) bool, exitOK bool) bool {
 	ok := true
 	seen := map[*cfg.Block]bool{}
 	var walk func(b *cfg.Block)
@@ -84,9 +89,13 @@ func regionAllPathsHit(c *CFG, from *cfg.Block, good func(ast.Node) bool, stop f
 			}
 		}
 		live := 0
+		cond, t, f, isCond := CondEdges(b)
 		for _, s := range b.Succs {
 			if s.Live {
 				live++
+				if isCond && goodEdge != nil && ((s == t && goodEdge(cond, true)) || (s == f && goodEdge(cond, false))) {
+					continue
+				}
 				walk(s)
 			}
 		}
@@ -643,4 +652,602 @@ func runCloseFnNonblocking(c *Ctx) {
 	if n == 0 {
 		c.Bad("closefn/none", token.NoPos, "found no call of Hub.AddIf / Hub.Add in cmd/thruserv")
 	}
+}
+
+// ---------------------------------------------------------------------------
+// Rules that hold the repairs F67-F69 (DESIGN 8.17)
+
+func init() {
+	Register(&Rule{
+		Name:  "R-AUTH-KEY-PLAIN",
+		Props: []string{"C08"},
+		Min:   1,
+		Doc: "different join codes are different keys (F67): every hmac.New(h, []byte(code)) in internal/app whose key is a string converted on the spot is reached only past the false edge of a NUL test on that string (strings.IndexByte(code, 0) >= 0, strings.Contains(code, \"\\x00\"), strings.ContainsRune(code, 0)) " +
+			"and of a length test len(code) > K with K at most the block size of the hash (64) - HMAC pads a short key with zero bytes and replaces a long one by its hash, so without the two tests `X` and `X\\x00`, or a long code and its SHA-256, pass the transport authentication with each other",
+		Run: runAuthKeyPlain,
+	})
+	Register(&Rule{
+		Name:  "R-ABANDONED-BUF",
+		Props: []string{"C01", "C02"},
+		Min:   6,
+		Doc: "a buffer whose read or write was abandoned is not handed to anybody else (F68): (helper) a function of internal/transfer that hands a []byte parameter to another goroutine (a go literal, or a job sent on a channel) which reads into it or writes it to a file, " +
+			"and that can return on its context's end before that goroutine is done, returns the error type that bufferAbandoned recognises on that path; (caller) where such a helper is called on a buffer taken from a pool, the error branch (and a deferred clean-up) does not Put the buffer directly - " +
+			"it goes through a function that tests bufferAbandoned first. The chunk pools and the read pool are process-wide and a host serves several receivers at once: a buffer returned while the abandoned read still runs is overwritten with another file's bytes under the next transfer's hands, before its CRC is computed",
+		Run: runAbandonedBuf,
+	})
+	Register(&Rule{
+		Name:  "R-PATHS-DISTINCT",
+		Props: []string{"C17", "C03"},
+		Min:   2,
+		Doc: "no manifest with a path listed twice is sent or accepted (F69): the item loop of validateManifest tests membership of the item's RelPath in a set, returns an error when it is there, and inserts it on every path that goes on to the next item - " +
+			"sender and receiver keep their per-file state by path while the scheduler keeps a key per item: with a repeated path one item is never begun and the sender waits for its acknowledgement for ever",
+		Run: runPathsDistinct,
+	})
+}
+
+func runAuthKeyPlain(c *Ctx) {
+	p := c.P
+	n := 0
+	isZeroByte := func(info *types.Info, e ast.Expr) bool {
+		tv, ok := info.Types[e]
+		if !ok || tv.Value == nil {
+			return false
+		}
+		switch tv.Value.Kind() {
+		case constant.Int:
+			v, ok := constant.Int64Val(tv.Value)
+			return ok && v == 0
+		case constant.String:
+			return constant.StringVal(tv.Value) == "\x00"
+		}
+		return false
+	}
+	for _, f := range p.FuncsIn("internal/app") {
+		if f.Body == nil || strings.HasSuffix(p.Fset.Position(f.Pos()).Filename, "_test.go") {
+			continue
+		}
+		info := f.Info()
+		spec := &PassSpec{Name: "plain-key", Vias: []Via{
+			{Cond: func(g *FuncInfo, e ast.Expr) (string, bool, bool) { // NUL test: true means "has a NUL"
+				e = ast.Unparen(e)
+				var call *ast.CallExpr
+				if be, ok := e.(*ast.BinaryExpr); ok {
+					// strings.IndexByte(x, 0) >= 0 / != -1 / > -1
+					cl, ok := ast.Unparen(be.X).(*ast.CallExpr)
+					if !ok {
+						return "", false, false
+					}
+					v, isC := constInt(g.Info(), be.Y)
+					if !isC {
+						return "", false, false
+					}
+					if !((be.Op == token.GEQ && v == 0) || (be.Op == token.NEQ && v == -1) || (be.Op == token.GTR && v == -1)) {
+						return "", false, false
+					}
+					call = cl
+					fn := Callee(g.Info(), call)
+					if fn == nil || fn.Pkg() == nil || fn.Pkg().Path() != "strings" || !(fn.Name() == "IndexByte" || fn.Name() == "IndexRune" || fn.Name() == "Index") {
+						return "", false, false
+					}
+				} else if cl, ok := e.(*ast.CallExpr); ok {
+					call = cl
+					fn := Callee(g.Info(), call)
+					if fn == nil || fn.Pkg() == nil || fn.Pkg().Path() != "strings" || !(fn.Name() == "Contains" || fn.Name() == "ContainsRune" || fn.Name() == "ContainsAny") {
+						return "", false, false
+					}
+				} else {
+					return "", false, false
+				}
+				if len(call.Args) != 2 || !isZeroByte(g.Info(), call.Args[1]) {
+					return "", false, false
+				}
+				return "no-nul:" + types.ExprString(ast.Unparen(call.Args[0])), false, true
+			}},
+			{Cond: func(g *FuncInfo, e ast.Expr) (string, bool, bool) { // len(x) > K, K <= 64
+				be, ok := ast.Unparen(e).(*ast.BinaryExpr)
+				if !ok || (be.Op != token.GTR && be.Op != token.GEQ) {
+					return "", false, false
+				}
+				call, ok := ast.Unparen(be.X).(*ast.CallExpr)
+				if !ok || len(call.Args) != 1 {
+					return "", false, false
+				}
+				if id, ok := ast.Unparen(call.Fun).(*ast.Ident); !ok || id.Name != "len" {
+					return "", false, false
+				}
+				k, ok := constInt(g.Info(), be.Y)
+				if !ok || k > 64+int64(map[bool]int{true: 1, false: 0}[be.Op == token.GEQ]) {
+					return "", false, false
+				}
+				return "short:" + types.ExprString(ast.Unparen(call.Args[0])), false, true
+			}},
+		}}
+		k := 0
+		f.CFG().Calls(func(r NodeRef, call *ast.CallExpr) {
+			if !calleeIs(info, call, "crypto/hmac", "New") || len(call.Args) != 2 {
+				return
+			}
+			conv, ok := ast.Unparen(call.Args[1]).(*ast.CallExpr)
+			if !ok || len(conv.Args) != 1 {
+				return
+			}
+			if tv, ok := info.Types[conv.Fun]; !ok || !tv.IsType() {
+				return
+			}
+			if t := info.TypeOf(conv.Args[0]); t == nil || !isStringType(t) {
+				return
+			}
+			n++
+			k++
+			x := types.ExprString(ast.Unparen(conv.Args[0]))
+			okNul, okLen := spec.Passed(f, r, "no-nul:"+x), spec.Passed(f, r, "short:"+x)
+			c.Check(okNul && okLen, fmt.Sprintf("auth-key-plain/%s#%d", f.Name, k), call.Pos(), "the string used as HMAC key has no NUL byte and is at most one block long",
+				fmt.Sprintf("%s is used as the HMAC key as it is (NUL test passed: %v, length test passed: %v): HMAC pads a key shorter than its block with zero bytes and replaces a longer one by its hash, "+
+					"so `X` and `X\\x00`, or a code of more than 64 bytes and its SHA-256, are one key - two peers with different join codes pass the transport authentication with each other", x, okNul, okLen))
+		})
+	}
+	if n == 0 {
+		c.Bad("auth-key-plain/none", token.NoPos, "found no hmac.New keyed by a string in internal/app")
+	}
+}
+
+// abandonableHelpers: functions of internal/transfer that hand a []byte parameter to another goroutine (go literal / job on a
+// channel) which fills it (ReadAt, Read, io.ReadFull) or writes it to a file (WriteAt), and that have a `case <-ctx.Done()`.
+// Result: helper -> index of the buffer parameter.
+func abandonableHelpers(p *Program) map[*FuncInfo]int {
+	out := map[*FuncInfo]int{}
+	for _, f := range p.FuncsIn("internal/transfer") {
+		if f.Decl == nil || f.Body == nil || f.Type.Params == nil || strings.HasSuffix(p.Fset.Position(f.Pos()).Filename, "_test.go") || strings.HasSuffix(p.Fset.Position(f.Pos()).Filename, "/mock.go") {
+			continue
+		}
+		info := f.Info()
+		idx := 0
+		for _, fl := range f.Type.Params.List {
+			for _, nm := range fl.Names {
+				po := info.Defs[nm]
+				i := idx
+				idx++
+				sl, ok := po.Type().Underlying().(*types.Slice)
+				if !ok {
+					continue
+				}
+				if b, ok := sl.Elem().Underlying().(*types.Basic); !ok || b.Kind() != types.Uint8 {
+					continue
+				}
+				mentions := func(n ast.Node) bool {
+					hit := false
+					ast.Inspect(n, func(m ast.Node) bool {
+						if id, ok := m.(*ast.Ident); ok && info.Uses[id] == po {
+							hit = true
+						}
+						return true
+					})
+					return hit
+				}
+				handed := false
+				ast.Inspect(f.Body, func(m ast.Node) bool {
+					switch s := m.(type) {
+					case *ast.GoStmt:
+						if lit, ok := ast.Unparen(s.Call.Fun).(*ast.FuncLit); ok {
+							ast.Inspect(lit.Body, func(x ast.Node) bool {
+								call, ok := x.(*ast.CallExpr)
+								if !ok {
+									return true
+								}
+								name := ""
+								if sel, ok := ast.Unparen(call.Fun).(*ast.SelectorExpr); ok {
+									name = sel.Sel.Name
+								}
+								switch name {
+								case "ReadAt", "Read", "ReadFull", "WriteAt":
+									for _, a := range call.Args {
+										if mentions(a) {
+											handed = true
+										}
+									}
+								}
+								return true
+							})
+						}
+					case *ast.SendStmt:
+						// a job that carries the buffer: a composite literal (or a variable defined as one) with the parameter in it
+						for _, d := range append([]ast.Expr{s.Value}, resolveExprs(f, s.Value, 1)...) {
+							if cl, ok := ast.Unparen(d).(*ast.CompositeLit); ok && mentions(cl) {
+								handed = true
+							}
+						}
+					}
+					return true
+				})
+				waits := false
+				ast.Inspect(f.Body, func(m ast.Node) bool {
+					if cc, ok := m.(*ast.CommClause); ok && cc.Comm != nil && strings.HasSuffix(types.ExprString(commRecvExpr(cc)), ".Done()") {
+						waits = true
+					}
+					return true
+				})
+				if handed && waits {
+					out[f] = i
+				}
+			}
+		}
+	}
+	return out
+}
+
+func commRecvExpr(cc *ast.CommClause) ast.Expr {
+	var e ast.Expr
+	switch s := cc.Comm.(type) {
+	case *ast.ExprStmt:
+		e = s.X
+	case *ast.AssignStmt:
+		if len(s.Rhs) == 1 {
+			e = s.Rhs[0]
+		}
+	}
+	if u, ok := ast.Unparen(e).(*ast.UnaryExpr); ok && u.Op == token.ARROW {
+		return u.X
+	}
+	return &ast.Ident{Name: "_"}
+}
+
+func runAbandonedBuf(c *Ctx) {
+	p := c.P
+	pred := p.Func("transfer.bufferAbandoned")
+	if pred == nil {
+		c.MissingAnchor("transfer.bufferAbandoned")
+		return
+	}
+	// the error type the predicate recognises: var a *T; errors.As(err, &a)
+	var abandonedT types.Type
+	ast.Inspect(pred.Body, func(m ast.Node) bool {
+		call, ok := m.(*ast.CallExpr)
+		if !ok || !calleeIs(pred.Info(), call, "errors", "As") || len(call.Args) != 2 {
+			return true
+		}
+		if u, ok := ast.Unparen(call.Args[1]).(*ast.UnaryExpr); ok && u.Op == token.AND {
+			abandonedT = pred.Info().TypeOf(u.X)
+		}
+		return true
+	})
+	if abandonedT == nil {
+		c.Unknown("abandoned-buf/predicate", pred.Pos(), "cannot read the error type bufferAbandoned recognises (expected errors.As(err, &a))")
+		return
+	}
+	helpers := abandonableHelpers(p)
+	if len(helpers) == 0 {
+		c.Bad("abandoned-buf/none", token.NoPos, "found no helper that hands its buffer to another goroutine and returns on its context's end")
+		return
+	}
+	// (helper) the return in every `case <-ctx.Done()` clause that lies behind the hand-over is of the recognised type
+	for h := range helpers {
+		info := h.Info()
+		k := 0
+		// position of the hand-over: the first go statement / send that carries the buffer
+		var handPos token.Pos
+		ast.Inspect(h.Body, func(m ast.Node) bool {
+			switch m.(type) {
+			case *ast.GoStmt:
+				if handPos == token.NoPos {
+					handPos = m.Pos()
+				}
+			}
+			return true
+		})
+		InspectNoLits(h.Body, func(m ast.Node) bool {
+			cc, ok := m.(*ast.CommClause)
+			if !ok || cc.Comm == nil || !strings.HasSuffix(types.ExprString(commRecvExpr(cc)), ".Done()") {
+				return true
+			}
+			// a clause in the same select as the hand-over itself (case jobs <- job / case <-ctx.Done()) is before it
+			for _, st := range cc.Body {
+				rs, ok := st.(*ast.ReturnStmt)
+				if !ok || len(rs.Results) == 0 {
+					continue
+				}
+				// before the hand-over?
+				before := false
+				if handPos == token.NoPos {
+					// hand-over by channel send: the select that contains the send is the hand-over; a Done clause of that very select is "not handed over"
+					ast.Inspect(h.Body, func(x ast.Node) bool {
+						if sel, ok := x.(*ast.SelectStmt); ok && sel.Pos() <= cc.Pos() && cc.End() <= sel.End() {
+							for _, c2 := range sel.Body.List {
+								if c3, ok := c2.(*ast.CommClause); ok {
+									if _, isSend := c3.Comm.(*ast.SendStmt); isSend {
+										before = true
+									}
+								}
+							}
+						}
+						return true
+					})
+				} else if cc.Pos() < handPos {
+					before = true
+				}
+				if before {
+					continue
+				}
+				k++
+				last := rs.Results[len(rs.Results)-1]
+				t := info.TypeOf(last)
+				c.Check(t != nil && types.Identical(t, abandonedT), fmt.Sprintf("abandoned-buf/helper/%s/return#%d", h.Name, k), rs.Pos(), "the give-up return says that the buffer may still be in use",
+					h.Name+" returns `"+types.ExprString(last)+"` when its context ends while the operation it handed the buffer to may still run: the caller cannot tell this from an error after which the buffer is free, "+
+						"returns the buffer to the process-wide pool, and the next transfer that takes it has it overwritten (or written to a file) under its hands")
+			}
+			return true
+		})
+		if k == 0 {
+			c.Unknown("abandoned-buf/helper/"+h.Name, h.Pos(), "found no give-up return behind the hand-over of the buffer")
+		}
+	}
+	// (caller) no direct Put of the buffer in the error branch or in a deferred clean-up
+	nc := 0
+	released := map[*FuncInfo]bool{}
+	for _, f := range p.Funcs() {
+		if f.Body == nil || f.Pkg.PkgPath != RepoPkg("internal/transfer") || strings.HasSuffix(p.Fset.Position(f.Pos()).Filename, "_test.go") {
+			continue
+		}
+		info := f.Info()
+		k := 0
+		InspectNoLits(f.Body, func(m ast.Node) bool {
+			call, ok := m.(*ast.CallExpr)
+			if !ok {
+				return true
+			}
+			h := p.CalleeInfo(info, call)
+			bi, isH := helpers[h]
+			if h == nil || !isH || bi >= len(call.Args) {
+				return true
+			}
+			broot := rootObj(info, call.Args[bi])
+			if broot == nil {
+				return true
+			}
+			// from a pool?
+			pooled := false
+			for g := f; g != nil; g = g.Parent {
+				for _, d := range allDefs(g, broot) {
+					if dc, ok := ast.Unparen(d).(*ast.CallExpr); ok {
+						if sel, ok := ast.Unparen(dc.Fun).(*ast.SelectorExpr); ok && sel.Sel.Name == "Get" {
+							pooled = true
+						}
+					}
+				}
+			}
+			if v, ok := broot.(*types.Var); ok && !pooled && (v.IsField() || p.isParam(v)) {
+				// a field / parameter (c.buf of a chunk record): taken from the pool by the producer
+				for _, g := range allKids(f.Root()) {
+					InspectNoLits(g.Body, func(x ast.Node) bool {
+						if c2, ok := x.(*ast.CallExpr); ok {
+							if sel, ok := ast.Unparen(c2.Fun).(*ast.SelectorExpr); ok && sel.Sel.Name == "Put" && len(c2.Args) == 1 && strings.HasSuffix(types.ExprString(c2.Args[0]), ".buf") {
+								pooled = true
+							}
+						}
+						return true
+					})
+				}
+			}
+			if !pooled {
+				return true
+			}
+			nc++
+			k++
+			key := fmt.Sprintf("abandoned-buf/caller/%s#%d", f.Name, k)
+			// the error variable of the call
+			var errObj types.Object
+			var errIf *ast.IfStmt
+			ast.Inspect(f.Body, func(x ast.Node) bool {
+				switch s := x.(type) {
+				case *ast.AssignStmt:
+					if len(s.Rhs) == 1 && ast.Unparen(s.Rhs[0]) == ast.Expr(call) {
+						errObj = ObjOf(info, s.Lhs[len(s.Lhs)-1])
+					}
+				}
+				return true
+			})
+			if errObj == nil {
+				c.Unknown(key, call.Pos(), "the error of "+h.Name+" is not bound to a variable")
+				return true
+			}
+			ast.Inspect(f.Body, func(x ast.Node) bool {
+				is, ok := x.(*ast.IfStmt)
+				if !ok || errIf != nil || is.Pos() < call.Pos() && !(is.Init != nil && is.Init.Pos() <= call.Pos() && call.End() <= is.Init.End()) {
+					return true
+				}
+				mentions := false
+				ast.Inspect(is.Cond, func(y ast.Node) bool {
+					if id, ok := y.(*ast.Ident); ok && ObjOf(info, id) == errObj {
+						mentions = true
+					}
+					return true
+				})
+				if mentions {
+					errIf = is
+				}
+				return true
+			})
+			var bad []string
+			isDirectPut := func(x ast.Node) bool {
+				c2, ok := x.(*ast.CallExpr)
+				if !ok || len(c2.Args) != 1 {
+					return false
+				}
+				sel, ok := ast.Unparen(c2.Fun).(*ast.SelectorExpr)
+				return ok && sel.Sel.Name == "Put" && rootObj(info, c2.Args[0]) == broot
+			}
+			guarded := func(x ast.Node) bool {
+				// if !bufferAbandoned(err) { pool.Put(buf) }
+				for _, is := range enclosingIfs(f.Body, x) {
+					for _, a := range Implied(is.Cond, true) {
+						if c3, ok := ast.Unparen(a.E).(*ast.CallExpr); ok && !a.Val && p.CalleeInfo(info, c3) == pred {
+							return true
+						}
+					}
+				}
+				return false
+			}
+			// a function the error branch hands buffer and error to must test the predicate in front of its Put
+			checkRelease := func(body ast.Node) {
+				ast.Inspect(body, func(x ast.Node) bool {
+					c2, ok := x.(*ast.CallExpr)
+					if !ok {
+						return true
+					}
+					h2 := p.CalleeInfo(info, c2)
+					if h2 == nil || h2.Body == nil || h2 == pred || h2.Pkg != f.Pkg {
+						return true // the pool's own Put is judged at its call (direct Put below)
+					}
+					carries := false
+					for _, a := range c2.Args {
+						if rootObj(info, a) == broot {
+							carries = true
+						}
+					}
+					if !carries || released[h2] {
+						return true
+					}
+					released[h2] = true
+					spec := &PassSpec{Name: "not-abandoned", Vias: []Via{{Cond: func(g *FuncInfo, e ast.Expr) (string, bool, bool) {
+						if c3, ok := ast.Unparen(e).(*ast.CallExpr); ok && p.CalleeInfo(g.Info(), c3) == pred {
+							return "free", false, true
+						}
+						return "", false, false
+					}}}}
+					np := 0
+					h2.CFG().Calls(func(r NodeRef, c3 *ast.CallExpr) {
+						if sel, ok := ast.Unparen(c3.Fun).(*ast.SelectorExpr); ok && sel.Sel.Name == "Put" && len(c3.Args) == 1 {
+							np++
+							c.Check(spec.Passed(h2, r, "free"), fmt.Sprintf("abandoned-buf/release/%s#%d", h2.Name, np), c3.Pos(), "Put only behind the false edge of bufferAbandoned",
+								h2.Name+" puts the buffer it is handed on an error path back into the pool without asking bufferAbandoned first: the buffer of a read that was abandoned goes to the next transfer while the read still runs")
+						}
+					})
+					return true
+				})
+			}
+			if errIf != nil {
+				checkRelease(errIf.Body)
+			}
+			InspectNoLits(f.Body, func(x ast.Node) bool {
+				if ds, ok := x.(*ast.DeferStmt); ok {
+					checkRelease(ds)
+				}
+				return true
+			})
+			if errIf != nil {
+				ast.Inspect(errIf.Body, func(x ast.Node) bool {
+					if isDirectPut(x) && !guarded(x) {
+						bad = append(bad, "in the error branch at "+p.Pos(x.Pos()))
+					}
+					return true
+				})
+			}
+			InspectNoLits(f.Body, func(x ast.Node) bool {
+				if ds, ok := x.(*ast.DeferStmt); ok {
+					ast.Inspect(ds, func(y ast.Node) bool {
+						if isDirectPut(y) && !guarded(y) {
+							bad = append(bad, "in a deferred clean-up at "+p.Pos(y.Pos()))
+						}
+						return true
+					})
+				}
+				return true
+			})
+			c.Check(len(bad) == 0, key, call.Pos(), "the buffer of a failed "+h.Name+" is not put back directly",
+				"the buffer handed to "+h.Name+" goes straight back into the pool "+strings.Join(bad, ", ")+": when the helper gave up because the transfer was cancelled the operation may still be using the buffer, "+
+					"the pool is shared by all transfers of the process, and the next one that takes the buffer has another file's bytes written over its chunk before the checksum is computed")
+			return true
+		})
+	}
+	if nc == 0 {
+		c.Bad("abandoned-buf/caller/none", token.NoPos, "found no call of an abandonable helper on a pooled buffer")
+	}
+}
+
+func runPathsDistinct(c *Ctx) {
+	p := c.P
+	vm := p.Func("transfer.validateManifest")
+	if vm == nil {
+		c.MissingAnchor("transfer.validateManifest")
+		return
+	}
+	info := vm.Info()
+	g := vm.CFG()
+	var loop *ast.RangeStmt
+	InspectNoLits(vm.Body, func(m ast.Node) bool {
+		if rs, ok := m.(*ast.RangeStmt); ok && strings.HasSuffix(types.ExprString(rs.X), ".Items") && loop == nil {
+			loop = rs
+		}
+		return true
+	})
+	if loop == nil {
+		c.Bad("paths-distinct/loop", vm.Pos(), "validateManifest has no loop over the manifest's items")
+		return
+	}
+	item := ObjOf(info, loop.Value)
+	isItemPath := func(e ast.Expr) bool {
+		sel, ok := ast.Unparen(e).(*ast.SelectorExpr)
+		return ok && sel.Sel.Name == "RelPath" && ObjOf(info, sel.X) == item
+	}
+	// membership test: `_, dup := M[item.RelPath]; dup` or `M[item.RelPath]` (map to bool) with an error return in the body
+	var set types.Object
+	var test *ast.IfStmt
+	ast.Inspect(loop.Body, func(m ast.Node) bool {
+		is, ok := m.(*ast.IfStmt)
+		if !ok || test != nil {
+			return true
+		}
+		var ix *ast.IndexExpr
+		if as, ok := is.Init.(*ast.AssignStmt); ok && len(as.Lhs) == 2 && len(as.Rhs) == 1 {
+			if x, ok := ast.Unparen(as.Rhs[0]).(*ast.IndexExpr); ok && ObjOf(info, as.Lhs[1]) != nil && ObjOf(info, as.Lhs[1]) == ObjOf(info, is.Cond) {
+				ix = x
+			}
+		}
+		if x, ok := ast.Unparen(is.Cond).(*ast.IndexExpr); ok && ix == nil {
+			ix = x
+		}
+		if ix == nil || !isItemPath(ix.Index) {
+			return true
+		}
+		if _, isMap := info.TypeOf(ix.X).Underlying().(*types.Map); !isMap {
+			return true
+		}
+		// the body returns an error
+		refuses := false
+		for _, st := range is.Body.List {
+			if rs, ok := st.(*ast.ReturnStmt); ok && len(rs.Results) == 1 && types.ExprString(rs.Results[0]) != "nil" {
+				refuses = true
+			}
+		}
+		if refuses {
+			test, set = is, ObjOf(info, ix.X)
+		}
+		return true
+	})
+	c.Check(test != nil, "paths-distinct/refused", loop.Pos(), "a path that was seen before is refused",
+		"validateManifest does not refuse a manifest that lists a path twice: sender and receiver keep their per-file state by path, the scheduler a key per item - one of the two items is never begun, "+
+			"its acknowledgement never comes, and the sender waits for ever (a caller that builds the manifest itself, or a peer that sends one)")
+	if test == nil {
+		return
+	}
+	var body *cfg.Block
+	for _, b := range g.Blocks {
+		if b.Stmt == ast.Stmt(loop) && b.Kind == cfg.KindRangeBody {
+			body = b
+		}
+	}
+	if body == nil {
+		c.Unknown("paths-distinct/recorded", loop.Pos(), "cannot find the loop body in the control-flow graph")
+		return
+	}
+	isInsert := func(nd ast.Node) bool {
+		as, ok := nd.(*ast.AssignStmt)
+		if !ok || len(as.Lhs) != 1 {
+			return false
+		}
+		ix, ok := ast.Unparen(as.Lhs[0]).(*ast.IndexExpr)
+		return ok && ObjOf(info, ix.X) == set && isItemPath(ix.Index)
+	}
+	stop := func(b *cfg.Block) bool { return b.Stmt == ast.Stmt(loop) && b.Kind == cfg.KindRangeLoop }
+	c.Check(regionAllPathsHit(g, body, isInsert, stop, true), "paths-distinct/recorded", test.Pos(), "every item that passes is recorded in the set",
+		"validateManifest can go on to the next item without recording this item's path in the set it tests against: the second occurrence of that path is not noticed")
 }
